@@ -49,6 +49,8 @@ def enc_v(x, scale):
 def dec_v(a, scale):
     if a in ('F:nan', 'N'):
         return np.nan
+    if a in ('F:inf', 'F:-inf'):      # law-only inputs (the models have no infinities: the driver answers bad-op)
+        return float(a[2:])
     assert a.startswith('I:'), a
     return int(a[2:]) / float(scale)
 
